@@ -1,8 +1,8 @@
 package main
 
 import (
-	"context"
 	"bytes"
+	"context"
 	"fmt"
 	"io"
 	"math/rand"
@@ -71,6 +71,15 @@ func (h *bufHandler) ServeHTTP(w http.ResponseWriter, req *http.Request) {
 		got := make([]byte, n)
 		_, err := io.ReadFull(req.Body, got)
 		s.bodyEq = err == nil && bytes.Equal(got, h.origBody[:n])
+	case "copy": // drained with io.Copy (hashing, dumping, teeing): the copy goes through the body's WriteTo when it has one
+		var got bytes.Buffer
+		_, err := io.Copy(&got, req.Body)
+		s.bodyEq = err == nil && bytes.Equal(got.Bytes(), h.origBody)
+	case "copyhalf":
+		n := len(h.origBody) / 2
+		var got bytes.Buffer
+		_, err := io.CopyN(&got, req.Body, int64(n))
+		s.bodyEq = err == nil && bytes.Equal(got.Bytes(), h.origBody[:n])
 	default:
 		s.bodyEq = true
 	}
@@ -119,7 +128,14 @@ func (h *bufHandler) ServeHTTP(w http.ResponseWriter, req *http.Request) {
 	}
 	for _, c := range list(sc, "writes") {
 		n := int(c.(float64))
-		w.Write(bytes.Repeat([]byte{byte('a' + h.k%26)}, n))
+		chunk := bytes.Repeat([]byte{byte('a' + h.k%26)}, n)
+		if strOr(sc, "via", "write") == "copy" {
+			// what ServeContent, file servers and hand-written proxies do: io.Copy from a source that is only a Reader
+			// (the destination's ReadFrom is used when it has one)
+			io.Copy(w, struct{ io.Reader }{bytes.NewReader(chunk)})
+		} else {
+			w.Write(chunk)
+		}
 	}
 	h.seen[len(h.seen)-1].afterFiles = len(tmpFiles())
 	if boolOr(sc, "panic", false) { // the handler aborts after having written (what a reverse proxy does when its backend breaks off)
